@@ -399,7 +399,9 @@ fn headers_to_canonicalized_string(headers: &hyper::HeaderMap) -> String {
 
     for (key, value) in headers.iter() {
         let key = key.to_string();
-        let value = value.to_str().unwrap().to_string();
+        // header values may carry bytes >= 0x80 (obs-text), which to_str() rejects;
+        // valid UTF-8 is kept byte for byte, anything else becomes U+FFFD
+        let value = String::from_utf8_lossy(value.as_bytes()).to_string();
         let key_lower_case = key.to_lowercase();
         map.insert(key_lower_case, (key, value));
     }
